@@ -38,6 +38,7 @@ Rel(ver, draft, pre, plat, sums) == [ver |-> ver, draft |-> draft, pre |-> pre, 
 \* plat: "good" | "corrupt" (not an archive) | "badmember" (archive without the executable)
 \*       | "none" (another operating system only) | "otherarch" (this OS, another architecture only)
 \*       | "archfirst" (an asset for another architecture is listed before the right one)
+\*       | "tgz" (a good archive under another extension the platform matching accepts: .tgz)
 \* sums: "match" | "mismatch" | "otherfile" (entry for another file only) | "malformed" | "missing"
 
 Usable(r)    == ~r.draft /\ ~r.pre /\ r.plat \notin {"none", "otherarch"}
@@ -86,7 +87,7 @@ Verify == /\ pc = "verify"
              ELSE Fail("checksum")
 
 Replace == /\ pc = "replace"
-           /\ IF Catalogue[sel].plat \in {"good", "archfirst"}
+           /\ IF Catalogue[sel].plat \in {"good", "archfirst", "tgz"}
               THEN exe' = Catalogue[sel].ver /\ pc' = "done" /\ out' = "updated" /\ UNCHANGED sel
               ELSE Fail("unpack")
 
@@ -100,7 +101,7 @@ Integrity == exe # 0 =>
     /\ exe > Running
     /\ \E i \in 1..Len(Catalogue) :
          /\ Catalogue[i].ver = exe /\ Usable(Catalogue[i])
-         /\ Catalogue[i].plat \in {"good", "archfirst"} /\ Catalogue[i].sums = "match"
+         /\ Catalogue[i].plat \in {"good", "archfirst", "tgz"} /\ Catalogue[i].sums = "match"
 \* C15 for `version': it never gets as far as fetching anything, the executable stays as it is
 VersionInert == Cmd = "version" => (exe = 0 /\ pc \in {"start", "listed", "selected", "done"})
 Reported  == (pc = "done" /\ exe = 0) => out # "updated"
